@@ -104,6 +104,8 @@ struct World {
     /// the application answered one bind request object twice (then a second answer frame is its doing)
     replied: std::collections::HashSet<(usize, usize)>,
     double_reply: bool,
+    /// how often the premises of the wire-level / end-of-case monitors held (reported in the distribution)
+    mon: std::collections::BTreeMap<&'static str, u64>,
 }
 
 const NAMES: [&str; 2] = ["A", "B"];
@@ -180,6 +182,7 @@ impl World {
             bind_wire: [HashMap::new(), HashMap::new()],
             replied: std::collections::HashSet::new(),
             double_reply: false,
+            mon: std::collections::BTreeMap::new(),
         };
         for v in &mut w.view {
             v.mux_alive = true;
@@ -399,6 +402,9 @@ impl World {
                             let m = format!("wire {}", hexd(&[&[0x72u8][..], &id.to_be_bytes()[..]].concat()));
                             evs.split("; ").any(|ev| ev == m)
                         });
+                        if !ids.is_empty() && !peer_gone && !told_before {
+                            *self.mon.entry("abort-signalled/judged").or_insert(0) += 1;
+                        }
                         if !ids.is_empty() && !peer_gone && !told_before && !told_now {
                             let msg = format!("the application of {} dropped stream #{h} (flow {}) without shutting it down while the connection is up and no Reset of that flow had passed; endpoint {} is quiescent and has put no Reset for it on the wire: the peer is never told of the abort (events of the step: {})",
                                 NAMES[e], ids.iter().map(|i| format!("{i:08x}")).collect::<Vec<_>>().join("/"), NAMES[e], if evs.is_empty() { "none" } else { evs });
@@ -621,7 +627,7 @@ impl World {
                         match op {
                             3 => {
                                 if let Some(st) = self.bind_wire[e].get_mut(&id) {
-                                    if *st == 1 { *st = 2; } else { self.bind_wire[e].remove(&id); }
+                                    if *st == 1 { *st = 2; *self.mon.entry("bind-accept/watched").or_insert(0) += 1; } else { self.bind_wire[e].remove(&id); }
                                 }
                             }
                             2 => {
@@ -1181,6 +1187,9 @@ fn final_checks(w: &mut World) {
         for port in ports {
             let Some((oe, req)) = w.open_ports.get(&port).copied() else { continue };
             let ent = w.port_handle[&port];
+            if ent[oe].is_some() {
+                *w.mon.entry("open-ok/judged").or_insert(0) += 1;
+            }
             if let (Some(h), None) = (ent[oe], ent[1 - oe]) {
                 let msg = format!("open request {req} of {} (port {port}) resolved Ok (stream {}#{h}), but the application of {} was never handed a stream for it although it accepted until its accept queue was empty, the connection is up and nothing is in flight (accept queue capacity of {}: {})",
                     NAMES[oe], NAMES[oe], NAMES[1 - oe], NAMES[1 - oe], w.opts[1 - oe].accept_cap);
@@ -1192,6 +1201,9 @@ fn final_checks(w: &mut World) {
         ab.sort_unstable();
         for (e, h) in ab {
             let Some((pe, ph)) = w.peer_handle(e, h) else { continue };
+            if w.view[pe].handles[ph].alive {
+                *w.mon.entry("peer-read-after-abort/judged").or_insert(0) += 1;
+            }
             let p = &w.view[pe].handles[ph];
             if p.alive && !p.eof {
                 let msg = format!("the application of {} dropped stream #{h} without shutting it down; the peer application still holds {}#{ph} and has read everything that arrived, the connection is up and nothing is in flight, yet its read never reports end-of-stream", NAMES[e], NAMES[pe]);
@@ -1579,6 +1591,7 @@ fn main() {
             let res = st.out.split(' ').next().unwrap_or("?");
             rep.count(&format!("res/{op}/{res}"));
         }
+        for (k, n) in &w.mon { rep.count_n(&format!("monitor/{k}"), *n); }
         if w.injected { rep.count("case/with-injected-frames"); }
         if w.faulted { rep.count("case/with-transport-fault"); }
         if rep.samples.len() < 3 {
